@@ -299,6 +299,7 @@ def rule_secrecy(ctx, res):
 def run(ctx, res):
     d = common.Dispatcher(ctx)
     res.touch(d.body)
+    common.rule_closed_world(ctx, res)
     rule_ip_binding(ctx, res, d)
     c05.rule_error_codes(ctx, res, d)   # P2: storing only after a successful check; bad token -> 203, nothing stored
     rule_rotation_first(ctx, res)
